@@ -7,7 +7,7 @@ MODULES = [M("ohkami_lib/src/serde_cookie/de.rs", "harness/C11/cookie_de.rs"), M
 CONTRACTS = []
 B = dict(crate="ohkami_lib", strength="bounded", tier="quick", timeout=900)
 F = "serde_cookie::de::"
-HARNESSES = [H(f"c11_cookie_jar_roundtrip_k{k:02d}", functions=[F + "AmpersandSeparated::next_key_seed", F + "AmpersandSeparated::next_value_seed", F + "CookieDeserializer::next_section", F + "valid::name", F + "valid::value"],
+HARNESSES = [H(f"c11_cookie_jar_roundtrip_k{k:02d}", tier_override=("quick" if k == 2 else "thorough"), functions=[F + "AmpersandSeparated::next_key_seed", F + "AmpersandSeparated::next_value_seed", F + "CookieDeserializer::next_section", F + "valid::name", F + "valid::value"],
                clauses=["for every jar of the shape: each name decodes to the name sent, each value to the value sent (double quotes stripped), in order, and nothing follows the last cookie"],
                bound=["jar `N=VV; M=W`", "jar `N=\"VV\"; M=W` (double-quoted value)", "jar `N=VV`"][k] + "; names any RFC 6265 token byte, values any cookie-octet except `%` (symbolic)", **B) for k in range(3)] + [
     H("c11_cookie_percent_value", functions=[F + "AmpersandSeparated::next_value_seed", F + "valid::value"],
@@ -41,3 +41,6 @@ HARNESSES += [
 TRUSTED = ["ASSUMED CONTRACTS: percent-encoding crate (spec/percent.rs), core::str::from_utf8 (spec/utf8.rs), alloc::fmt::format stubbed", "serde's &str / String Deserialize impls executed, not specified"]
 ASSUMPTIONS = ["typed structs (serde-derived glue), the request's cookie iterator util::iter_cookies are NOT under a discharged contract; Set-Cookie: cookie NAME fixed (`sid`), directive VALUES fixed literals per shape; the byte_reader crate is executed, not specified"]
 JOBS = 6   # several of these queries need 5-10 GB: 16 at once exhaust the machine
+
+# the two-cookie jar templates k00 / k01 take 11-12 min each (measured 675 s / 711 s): thorough tier; the quick tier keeps the single-cookie template and the 256 escapes
+GROUP_JOBS = {"ohkami_lib": 4}
